@@ -5,6 +5,9 @@
 //        per case:     the pixel buffer is an exact-size heap block (plus padbytes of slack when
 //                      given: used only to look at what an over-reading writer produces),
 //                      the file <outdir>/<fmt>_<n>.bin is written, line "<path>" printed
+//   harness imgpat <fmt> <outdir>
+//        stdin lines:  <w> <h> <seed>     like img, the buffer filled by a pattern instead of listed values (wide images):
+//                      component i = (seed + 37 i + 101 (i / 251)) mod 256 for bytes, the bit pattern 0x3f800000 + seed + i for floats
 //   harness imgstack <fmt> <outdir> <w> <h> <stackbytes>
 //        one call of the writer on a thread whose stack has <stackbytes> bytes; prints the path of the file
 //   harness trace <outdir>
@@ -68,15 +71,24 @@ static void runImg(const std::string &path, int w, int h, const std::vector<uint
   free(buf);
 }
 
-static int mainImg(const std::string &fmt, const std::string &outdir, size_t pad)
+static int pixcompOf(const std::string &fmt) { return fmt == "PFM1" ? 1 : (fmt == "PFM3" ? 3 : 4); }
+
+static int mainImg(const std::string &fmt, const std::string &outdir, size_t pad, bool pattern)
 {
   std::string line; long n = 0;
   while (std::getline(std::cin, line)) {
     std::istringstream is(line);
     int w, h; is >> w >> h;
     std::vector<uint64_t> vals; uint64_t v;
-    while (is >> v) vals.push_back(v);
-    std::string path = outdir + "/" + fmt + "_" + std::to_string(n++) + (pad ? "p" : "") + ".bin";
+    if (pattern) {
+      uint64_t seed = 0; is >> seed;
+      const bool bytes = (fmt == "PPM" || fmt == "PGM");
+      const size_t cnt = (size_t)w * h * pixcompOf(fmt);
+      vals.resize(cnt);
+      for (size_t i = 0; i < cnt; ++i) vals[i] = bytes ? ((seed + 37 * i + 101 * (i / 251)) & 255) : (0x3f800000ull + seed + i);
+    } else
+      while (is >> v) vals.push_back(v);
+    std::string path = outdir + "/" + fmt + "_" + std::to_string(n++) + (pad ? "p" : "") + (pattern ? "w" : "") + ".bin";
     if (fmt == "PPM") runImg<uint32_t, unsigned char, 4>(path, w, h, vals, pad, utility::writePPM);
     else if (fmt == "PGM") runImg<uint32_t, unsigned char, 4>(path, w, h, vals, pad, utility::writePGM);
     else if (fmt == "PFM1") runImg<float, float, 1>(path, w, h, vals, pad, utility::writePFM<float>);
@@ -221,7 +233,8 @@ static int mainTrace(const std::string &outdir)
 
 int main(int argc, char **argv)
 {
-  if (argc >= 4 && std::string(argv[1]) == "img") return mainImg(argv[2], argv[3], argc > 4 ? (size_t)atol(argv[4]) : 0);
+  if (argc >= 4 && std::string(argv[1]) == "img") return mainImg(argv[2], argv[3], argc > 4 ? (size_t)atol(argv[4]) : 0, false);
+  if (argc >= 4 && std::string(argv[1]) == "imgpat") return mainImg(argv[2], argv[3], 0, true);
   if (argc >= 7 && std::string(argv[1]) == "imgstack") return mainImgStack(argv[2], argv[3], atoi(argv[4]), atoi(argv[5]), (size_t)atol(argv[6]));
   if (argc >= 3 && std::string(argv[1]) == "trace") return mainTrace(argv[2]);
   return 2;
